@@ -41,6 +41,20 @@ void ah_begin(const char *t, size_t len)
 	started = 0;
 }
 
+/* a second text in the storage of the first (a refilled line buffer): same address, new contents; the text must not be
+ * longer than the one given to ah_begin */
+void ah_refill(const char *t, size_t len)
+{
+	if (len)
+		memcpy(text, t, len);
+	text[len] = 0;
+	char *poison = malloc(1);
+	free(poison);
+	cur = poison;
+	s2 = text;
+	started = 0;
+}
+
 /* convention 1: text on the first call, NULL afterwards */
 int ah_next(void)
 {
